@@ -28,13 +28,27 @@ class Machinery(Exception):
     """Something in the checking machinery failed: exit 2, never a statement about spok."""
 
 
+def scratch_base():
+    """scratch lives in RAM (/dev/shm, ~8x faster for the many small sandbox trees) when there is room, else in the temp dir"""
+    d = os.environ.get("VERIF_SCRATCH")
+    if d:
+        return d
+    try:
+        st = os.statvfs("/dev/shm")
+        if st.f_bavail * st.f_frsize > 12 * 2**30 and os.access("/dev/shm", os.W_OK):
+            return "/dev/shm"
+    except OSError:
+        pass
+    return None
+
+
 class Ctx:
     def __init__(self, pid, tier, seed):
         self.pid = pid
         self.tier = tier
         self.seed = seed
         self.t0 = time.time()
-        self.scratch = tempfile.mkdtemp(prefix="verif-%s-" % pid)
+        self.scratch = tempfile.mkdtemp(prefix="verif-%s-" % pid, dir=scratch_base())
         self.notes = []
         self.violations = []      # list of dict(replay=path, sig=..., text=...)
         self.known = []           # KNOWN-FINDING lines printed
